@@ -182,11 +182,16 @@ def call(ev, name, args, kwargs, lineno, env):
         a = args[0]
         if is_array(a):
             if isinstance(a, Comp):
-                raise Unsupported("np.any of compressed")
+                # any over the selected elements = any over the base domain of (selected and value)
+                m_, f_ = a.mask, a.f
+                return E.AnyOf(Arr(m_.n, lambda j: band(m_.f(j), f_(j)), "b"))
             return E.AnyOf(a)
         return a
     if name == "all":
         a = args[0]
+        if isinstance(a, Comp):
+            m_, f_ = a.mask, a.f
+            return NotAny(Arr(m_.n, lambda j: band(m_.f(j), bnot(f_(j))), "b"))
         if is_array(a):
             neg = ev.map1(bnot, a, "b")
             if isinstance(a, Arr) and isinstance(neg, Arr):
@@ -203,6 +208,9 @@ def call(ev, name, args, kwargs, lineno, env):
             for k in range(int(a.n)):
                 out = arith("+", out, a.f(k))
             return out
+        if is_array(a) and not isinstance(a, Comp) and a.kind in ("i", "f"):
+            ps = prefix_sum(ev, a)
+            return ps(a.n)
         raise Unsupported("np.sum over a symbolic-length array (line %d)" % lineno)
     if name == "exp":
         return m1(V.exp)
@@ -294,6 +302,8 @@ def call(ev, name, args, kwargs, lineno, env):
         if is_array(a):
             return method(ev, a, "copy", [], {}, lineno, env)
         if isinstance(a, (list, tuple)):
+            if len(a) == 0:
+                return Arr(0, lambda j: 0, "f")
             if "dtype" in kwargs or len(args) > 1:
                 return ObjList(list(a))
             if all(is_scalar(x) for x in a):
@@ -333,6 +343,26 @@ def call(ev, name, args, kwargs, lineno, env):
             raise Unsupported("np.nan_to_num(copy=False)")
         return m1(lambda x: ite(nan_of(x), 0, val_of(x)) if isinstance(x, NS) else x)
     raise Unsupported("numpy function %s (line %d)" % (name, lineno))
+
+
+def prefix_sum(ev, a):
+    """psum(k) = a[0] + ... + a[k-1], defined recursively (psum(0) = 0, psum(k+1) = psum(k) + a[k]); one
+    function per array object, shared by np.sum and np.cumsum"""
+    ps = a.__dict__.get("_psum")
+    if ps is None:
+        sort = z3.IntSort() if a.kind == "i" else z3.RealSort()
+        uf = z3.Function("psum!%d" % next(V._counter), z3.IntSort(), sort)
+        ps = lambda k: uf(V.I(k))
+        a.__dict__["_psum"] = ps
+        k = fresh("k")
+        af = a.f
+        elem = (lambda j: V.I(af(j))) if a.kind == "i" else (lambda j: V.R(val_of(af(j))))
+        a.__dict__["_psum_facts"] = [uf(0) == 0, z3.ForAll([k], z3.Implies(
+            z3.And(k >= 0, B(compare("<", k, a.n))), uf(k + 1) == uf(k) + elem(k)))]
+    for fct in a.__dict__["_psum_facts"]:
+        if not any(fct.eq(g) for g in ev.path.facts):
+            ev.path.facts.append(fct)
+    return ps
 
 
 def _select(items, j):
